@@ -211,14 +211,14 @@ func C11(c *hx.Ctx) {
 		}
 	}
 	hostileOps := [][]ref.Op{
-		{{K: ref.OpMatch, Dist: 1, Len: 5}},                                  // match before any byte exists
-		{{K: ref.OpLit, B: 1}, {K: ref.OpMatch, Dist: 2, Len: 5}},            // distance = available + 1
-		{{K: ref.OpLit, B: 1}, {K: ref.OpMatch, Dist: 5000, Len: 273}},       // distance beyond the 4 KiB window
-		{{K: ref.OpLit, B: 1}, {K: ref.OpMatch, Dist: 1 << 31, Len: 2}},      // huge distance
-		{{K: ref.OpRep0, Len: 10}},                                          // rep before any match
-		{{K: ref.OpShort}},                                                  // short rep on an empty window
+		{{K: ref.OpMatch, Dist: 1, Len: 5}},                             // match before any byte exists
+		{{K: ref.OpLit, B: 1}, {K: ref.OpMatch, Dist: 2, Len: 5}},       // distance = available + 1
+		{{K: ref.OpLit, B: 1}, {K: ref.OpMatch, Dist: 5000, Len: 273}},  // distance beyond the 4 KiB window
+		{{K: ref.OpLit, B: 1}, {K: ref.OpMatch, Dist: 1 << 31, Len: 2}}, // huge distance
+		{{K: ref.OpRep0, Len: 10}},                                      // rep before any match
+		{{K: ref.OpShort}},                                              // short rep on an empty window
 		{{K: ref.OpLit, B: 1}, {K: ref.OpRep3, Len: 273}},
-		{{K: ref.OpLit, B: 1}, {K: ref.OpEos}},                                // end marker inside LZMA2
+		{{K: ref.OpLit, B: 1}, {K: ref.OpEos}}, // end marker inside LZMA2
 		{{K: ref.OpLit, B: 1}, {K: ref.OpMatch, Dist: 1, Len: 273}, {K: ref.OpMatch, Dist: 1, Len: 273}},
 	}
 	for i, ops := range hostileOps {
